@@ -14,7 +14,7 @@ Hypothesis HPtr : forall i, P (Ptr i).
 Hypothesis HTyped : forall t i, P (Typed t i).
 Hypothesis HWrap : forall g e, P e -> P (Wrap1 g e).
 Hypothesis HMulti : forall g es, Forall P es -> P (Multi g es).
-Hypothesis HStk : forall g es, Forall P es -> P (Stk g es).
+Hypothesis HStk : forall g n es, Forall P es -> P (Stk g n es).
 
 Fixpoint err_ind' (e : err) : P e :=
   match e with
@@ -25,7 +25,7 @@ Fixpoint err_ind' (e : err) : P e :=
   | Wrap1 g x => HWrap g x (err_ind' x)
   | Multi g es => HMulti g es ((fix go (l : list err) : Forall P l :=
                                   match l with [] => Forall_nil P | x :: r => Forall_cons x (err_ind' x) (go r) end) es)
-  | Stk g es => HStk g es ((fix go (l : list err) : Forall P l :=
+  | Stk g n es => HStk g n es ((fix go (l : list err) : Forall P l :=
                               match l with [] => Forall_nil P | x :: r => Forall_cons x (err_ind' x) (go r) end) es)
   end.
 End ErrInd.
@@ -48,6 +48,9 @@ Hypothesis H12 : forall g x, P x -> P (XPanicErr g x).
 Hypothesis H13 : forall g s, P (XPanicStr g s).
 Hypothesis H14 : forall g xs, Forall P xs -> P (XPanicErrs g xs).
 Hypothesis H15 : forall g i, P (XPanicOther g i).
+Hypothesis H16 : forall g x, P x -> P (XUnwrap g x).
+Hypothesis H17 : forall g xs, Forall P xs -> P (XJoinRemoveOk g xs).
+Hypothesis H18 : forall g xs, Forall P xs -> P (XJoinAppend g xs).
 
 Fixpoint expr_ind' (x : expr) : P x :=
   let go := fix go (l : list expr) : Forall P l :=
@@ -69,6 +72,9 @@ Fixpoint expr_ind' (x : expr) : P x :=
   | XPanicStr g s => H13 g s
   | XPanicErrs g xs => H14 g xs (go xs)
   | XPanicOther g i => H15 g i
+  | XUnwrap g y => H16 g y (expr_ind' y)
+  | XJoinRemoveOk g xs => H17 g xs (go xs)
+  | XJoinAppend g xs => H18 g xs (go xs)
   end.
 End ExprInd.
 
@@ -76,7 +82,7 @@ End ExprInd.
 
 (* an error that an aggregation keeps as one constituent: not nil, not flattened *)
 Definition plain (e : err) : bool :=
-  match e with Nil | Multi _ _ | Stk _ _ => false | _ => true end.
+  match e with Nil | Multi _ _ | Stk _ _ _ => false | _ => true end.
 
 (* what an aggregation is supplied with when handed e: stacks and multis are flattened (in the order Push
    visits them: a stack head first, a multi in slice order), nils vanish, everything else is one constituent *)
@@ -84,7 +90,7 @@ Fixpoint constituents (e : err) : list err :=
   match e with
   | Nil => []
   | Multi _ es => flat_map constituents es
-  | Stk _ es => flat_map constituents es
+  | Stk _ _ es => flat_map constituents es
   | _ => [e]
   end.
 
@@ -95,7 +101,7 @@ Fixpoint nodes (e : err) : list err :=
   e :: match e with
        | Wrap1 _ x => nodes x
        | Multi _ es => flat_map nodes es
-       | Stk _ es => flat_map nodes es
+       | Stk _ _ es => flat_map nodes es
        | _ => []
        end.
 
@@ -104,7 +110,7 @@ Fixpoint wf (e : err) : bool :=
   match e with
   | Wrap1 _ x => wf x
   | Multi _ es => forallb wf es
-  | Stk _ es => forallb (fun x => plain x && wf x) es
+  | Stk _ _ es => forallb (fun x => plain x && wf x) es
   | _ => true
   end.
 
@@ -160,7 +166,7 @@ Proof.
     try (destruct st; unfold pushed; simpl; f_equal; lia).
   - change (push (Multi g es) st) with (fold_left (fun s x => push x s) es st). simpl constituents.
     apply fold_push_spec. assumption.
-  - change (push (Stk g es) st) with (fold_left (fun s x => push x s) es st). simpl constituents.
+  - change (push (Stk g n es) st) with (fold_left (fun s x => push x s) es st). simpl constituents.
     apply fold_push_spec. assumption.
 Qed.
 
@@ -179,7 +185,7 @@ Lemma join_spec tag es :
   join tag es = match supplied es with
                 | [] => Nil
                 | [c] => c
-                | cs => Stk tag (rev cs)
+                | c :: d :: cs => Stk tag (Z.of_nat (length (c :: d :: cs))) (rev (c :: d :: cs))
                 end.
 Proof.
   unfold join. rewrite stack_add_zero. unfold stack_resolve. simpl s_count. simpl s_chain.
@@ -200,7 +206,7 @@ Proof.
   rewrite (plain_not_nil _ Hx). simpl. f_equal. exact IH.
 Qed.
 
-Lemma unwind_stk_plain tag l : Forall (fun c => plain c = true) l -> unwind (Stk tag l) = l.
+Lemma unwind_stk_plain tag n l : Forall (fun c => plain c = true) l -> unwind (Stk tag n l) = l.
 Proof. intros H. simpl. rewrite chain_unwind_plain, sparse_plain by assumption. reflexivity. Qed.
 
 Lemma Forall_rev' {A} (P : A -> Prop) l : Forall P l -> Forall P (rev l).
@@ -245,14 +251,14 @@ Proof.
   rewrite Forall_forall in Hp, Hw. rewrite Hp, Hw by assumption. reflexivity.
 Qed.
 
-Lemma wf_stk_supplied tag es : Forall (fun e => wf e = true) es -> wf (Stk tag (rev (supplied es))) = true.
+Lemma wf_stk_supplied tag n es : Forall (fun e => wf e = true) es -> wf (Stk tag n (rev (supplied es))) = true.
 Proof.
   intros H. simpl. apply wf_chain; apply Forall_rev'; [apply supplied_plain|apply wf_supplied; assumption].
 Qed.
 
 Lemma wf_join tag es : Forall (fun e => wf e = true) es -> wf (join tag es) = true.
 Proof.
-  intros H. rewrite join_spec. pose proof (wf_supplied es H) as Hs. pose proof (wf_stk_supplied tag es H) as Hk.
+  intros H. rewrite join_spec. pose proof (wf_supplied es H) as Hs. pose proof (wf_stk_supplied tag (Z.of_nat (length (supplied es))) es H) as Hk.
   destruct (supplied es) as [|c [|d cs]]; [reflexivity| |exact Hk]. inv Hs. assumption.
 Qed.
 
@@ -269,6 +275,52 @@ Proof.
   - apply wf_join. assumption.
 Qed.
 
+(* ------------------------------------------------------------------ Ok / RemoveOk / Unwrap *)
+
+(* an error that reports Ok holds nothing (so treating it as nil loses nothing) *)
+Lemma ok_no_constituents e : ok e = true -> constituents e = [].
+Proof.
+  destruct e; simpl; try discriminate; auto. destruct es; [reflexivity|].
+  unfold chain_ok. rewrite andb_false_r. discriminate.
+Qed.
+
+Lemma ok_iff e : ok e = true <-> e = Nil \/ exists g n, e = Stk g n [].
+Proof.
+  split.
+  - destruct e; simpl; try discriminate; auto. destruct es; [eauto|]. unfold chain_ok. rewrite andb_false_r. discriminate.
+  - intros [->|(g & n & ->)]; reflexivity.
+Qed.
+
+Lemma supplied_remove_ok es : supplied (remove_ok es) = supplied es.
+Proof.
+  unfold supplied, remove_ok, is_error. induction es as [|e es IH]; simpl; [reflexivity|].
+  destruct (ok e) eqn:E; simpl; rewrite IH; [rewrite (ok_no_constituents e E)|]; reflexivity.
+Qed.
+
+Lemma wf_remove_ok es : Forall (fun e => wf e = true) es -> Forall (fun e => wf e = true) (remove_ok es).
+Proof.
+  intros H. apply Forall_forall. intros e He. apply filter_In in He as [He _]. rewrite Forall_forall in H. auto.
+Qed.
+
+Lemma wf_unwrap1 tag e : wf e = true -> wf (unwrap1 tag e) = true.
+Proof.
+  destruct e; simpl; auto. destruct es as [|x [|y r]]; auto. intros H. destruct (is_nil y); [reflexivity|].
+  simpl in *. apply andb_true_iff in H as [_ H]. exact H.
+Qed.
+
+(* the inner layer of a stack holds everything but the most recent constituent *)
+Lemma unwrap1_stack tag g n es :
+  wf (Stk g n es) = true -> (2 <= length es)%nat ->
+  unwrap1 tag (Stk g n es) = Stk tag 0 (tl es) /\ constituents (unwrap1 tag (Stk g n es)) = tl es.
+Proof.
+  intros Hw Hl. destruct es as [|x [|y r]]; simpl in Hl; try lia. simpl in Hw.
+  apply andb_true_iff in Hw as [_ Hw]. assert (Hp : Forall (fun c => plain c = true) (y :: r)).
+  { apply Forall_forall. intros c Hc. change (forallb (fun x => plain x && wf x) (y :: r) = true) in Hw.
+    rewrite forallb_forall in Hw. specialize (Hw c Hc). apply andb_true_iff in Hw. tauto. }
+  simpl unwrap1. inversion Hp; subst. rewrite (plain_not_nil y) by assumption. split; [reflexivity|].
+  simpl constituents. apply (flat_map_plain (y :: r) Hp).
+Qed.
+
 (* every value a program can build is well-formed *)
 Theorem wf_eval x : wf (eval x) = true.
 Proof.
@@ -282,12 +334,15 @@ Proof.
   - apply Forall_map_eval in H. apply forallb_forall. rewrite Forall_forall in H. exact H.
   - apply wf_join. apply Forall_map_eval. assumption.
   - unfold wrap. destruct (ok (eval x)); [reflexivity|]. apply wf_join. repeat constructor. assumption.
-  - rewrite stack_add_zero. simpl s_chain. apply (wf_stk_supplied g). apply Forall_map_eval. assumption.
+  - rewrite stack_add_zero. simpl s_chain. apply (wf_stk_supplied g 0). apply Forall_map_eval. assumption.
   - change (fold_left (fun s v => push v s) (map eval xs) stack_zero) with (stack_add stack_zero (map eval xs)).
-    rewrite stack_add_zero. simpl s_chain. apply (wf_stk_supplied g). apply Forall_map_eval. assumption.
+    rewrite stack_add_zero. simpl s_chain. apply (wf_stk_supplied g 0). apply Forall_map_eval. assumption.
   - unfold coll_resolve. rewrite coll_adds_zero. unfold stack_len. simpl s_count. simpl s_chain.
     destruct (Z.of_nat (length (supplied (map eval xs))) =? 0); [reflexivity|].
-    apply (wf_stk_supplied g). apply Forall_map_eval. assumption.
+    apply (wf_stk_supplied g 0). apply Forall_map_eval. assumption.
   - apply (wf_parse_panic g (PErr (eval x))). assumption.
   - apply (wf_parse_panic g (PErrs (map eval xs))). apply Forall_map_eval. assumption.
+  - apply wf_unwrap1. assumption.
+  - apply wf_join, wf_remove_ok, Forall_map_eval. assumption.
+  - apply wf_join, wf_remove_ok, Forall_map_eval. assumption.
 Qed.
